@@ -19,6 +19,8 @@ package contractcourt
 //@ func (c *ChannelArbitrator) checkCommitChainActions
 //@   props C12
 //@   loop * havoc
+//@   loop 0 step haveChainActions == (prev(haveChainActions) || ret(shouldGoOnChain, 0))
+//@   loop 1 step haveChainActions == (prev(haveChainActions) || (retn(isPreimageAvailable, 0) && ret(shouldGoOnChain, 1)))
 //@   site call shouldGoOnChain nth 0: assert arg(broadcastDelta) == c.cfg.OutgoingBroadcastDelta && arg(currentHeight) == height && arg(htlc) == htlc
 //@   site call shouldGoOnChain nth 1: assert arg(broadcastDelta) == c.cfg.IncomingBroadcastDelta && arg(currentHeight) == height && arg(htlc) == htlc &&
 //@        retn(isPreimageAvailable, 0) && retn(isPreimageAvailable, 1) == nil
@@ -58,14 +60,16 @@ package contractcourt
 //@
 //@ func (c *ChannelArbitrator) checkLocalChainActions
 //@   props C12
-//@   site call checkCommitChainActions: assert arg(height) == height && arg(trigger) == trigger
+//@   site call checkCommitChainActions: assert arg(height) == height && arg(trigger) == trigger &&
+//@        arg(htlcs) == activeHTLCs[LocalHtlcSet]
 //@   site call checkRemoteDanglingActions: assert arg(height) == height && arg(commitsConfirmed) == commitsConfirmed &&
 //@        arg(activeHTLCs) == activeHTLCs && retn(checkCommitChainActions, 1) == nil
 //@   site call Merge: assert arg(0) == retn(checkCommitChainActions, 0) && arg(1) == ret(checkRemoteDanglingActions)
 //@
 //@ func (c *ChannelArbitrator) checkRemoteChainActions
 //@   props C12
-//@   site call checkCommitChainActions: assert arg(height) == height && arg(trigger) == trigger
+//@   site call checkCommitChainActions: assert arg(height) == height && arg(trigger) == trigger &&
+//@        arg(htlcs) == ite(pendingConf, activeHTLCs[RemotePendingHtlcSet], activeHTLCs[RemoteHtlcSet])
 //@   site call checkRemoteDiffActions: assert arg(pendingConf) == pendingConf && arg(activeHTLCs) == activeHTLCs &&
 //@        retn(checkCommitChainActions, 1) == nil
 //@   site call Merge: assert arg(0) == retn(checkCommitChainActions, 0) && arg(1) == ret(checkRemoteDiffActions)
